@@ -174,6 +174,10 @@ def main():
                 # all medians equal under an MI heuristic: 0/0 - outside the statement ("best 1, worst 0" needs max > min)
                 meds = {}
                 continue_ok = True
+            if 'MI' in it['heuristic'] and any(v == v and not (-1e-9 <= v <= 1 + 1e-9) for _, v in ob['singles']):
+                # (judged here, before the trace: the exact arithmetic of TraceSummary is sized for normalised scores)
+                V.violation('scores:' + key, f'heuristic {it["heuristic"]!r} is an MI-type name, but the written scores are not normalised to [0, 1]: {ob["singles"][:4]}', it)
+                continue
             recs.append(record(it, {'singles': [[f, (0.0 if v != v else v)] for f, v in ob['singles']], 'agg': [[c, (0.0 if v != v else v)] for c, v in (ob['agg'] or [])]}))
             metas.append((key, it, ob))
         tf = os.path.join(wd, 's.ndjson')
